@@ -11,11 +11,10 @@ import (
 	"github.com/cossacklabs/acra/keystore/v2/keystore/filesystem/backend"
 	backendAPI "github.com/cossacklabs/acra/keystore/v2/keystore/filesystem/backend/api"
 
-	"verifharness/internal/core"
 )
 
 type opSpec struct {
-	kind byte // A C S D R
+	kind byte // A C S D R O (O = OpenKeyRingRW: a fresh handle object on the thread's ring path, creating the ring when missing)
 	seq  int
 	st   int
 	data int
@@ -31,6 +30,8 @@ func (o opSpec) String() string {
 		return fmt.Sprintf("S%d.%d", o.seq, o.st)
 	case 'D':
 		return fmt.Sprintf("D%d", o.seq)
+	case 'O':
+		return "O"
 	}
 	return "R"
 }
@@ -49,11 +50,29 @@ type scenario struct {
 	rings   [][]initKey // initial keys per ring
 	threads []threadSpec
 	dir     bool // directory back end (one DirectoryBackend per handle on a shared directory) instead of in-memory
+	missing []bool // per ring: the ring file does not exist at the start (its threads begin with 'O' or only read)
+}
+
+func (sc scenario) isMissing(p int) bool { return p < len(sc.missing) && sc.missing[p] }
+
+// preopened says whether the harness opens the thread's ring handle before the traced run starts:
+// writers whose program does not itself begin with OpenKeyRingRW.
+func (t threadSpec) preopened() bool {
+	for _, o := range t.ops {
+		if o.kind != 'R' {
+			return t.ops[0].kind != 'O'
+		}
+	}
+	return false
 }
 
 func (sc scenario) key() string {
 	var sb strings.Builder
-	for _, r := range sc.rings {
+	for p, r := range sc.rings {
+		if sc.isMissing(p) {
+			sb.WriteString("[MISSING]")
+			continue
+		}
 		sb.WriteString("[")
 		for _, k := range r {
 			fmt.Fprintf(&sb, "%d%v ", k.state, k.current)
@@ -81,6 +100,7 @@ type outcome struct {
 	initial  []absRing
 	factors  []int
 	deadlock bool
+	panics   []string
 	w        *world
 	sc       scenario
 }
@@ -113,6 +133,8 @@ func material(id int) []byte {
 	copy(b, fmt.Sprintf("C17-key-material-%08d-abcdefghij", id))
 	return b
 }
+
+var errNotOpen = fmt.Errorf("ring handle not open")
 
 // runScenario executes the scenario on the real key store. script != nil selects the deterministic
 // scheduler (choices at decision points), script == nil lets the goroutines run freely.
@@ -152,6 +174,9 @@ func runScenario(sc scenario, script []int, deterministic bool) *outcome {
 	setup := w.open(setupInner)
 	nextID := 1
 	for p, keys := range sc.rings {
+		if sc.isMissing(p) {
+			continue
+		}
 		ring, err := setup.OpenKeyRingRW(paths[p])
 		if err != nil {
 			panic("harness: setup open: " + err.Error())
@@ -178,6 +203,9 @@ func runScenario(sc scenario, script []int, deterministic bool) *outcome {
 	}
 	readRing := func(p int) absRing {
 		data, err := setupInner.Get(paths[p] + ".keyring")
+		if err == backendAPI.ErrNotExist {
+			return absRing{missing: true, current: -1}
+		}
 		if err != nil {
 			panic("harness: read ring: " + err.Error())
 		}
@@ -213,13 +241,7 @@ func runScenario(sc scenario, script []int, deterministic bool) *outcome {
 	for i, t := range sc.threads {
 		tb := &tracedBackend{tid: i, inner: newInner(), tr: tr}
 		h := &handle{tb: tb, ks: w.open(tb)}
-		writer := false
-		for _, o := range t.ops {
-			if o.kind != 'R' {
-				writer = true
-			}
-		}
-		if writer {
+		if t.preopened() {
 			ring, err := h.ks.OpenKeyRingRW(paths[t.path])
 			if err != nil {
 				panic("harness: open: " + err.Error())
@@ -236,25 +258,45 @@ func runScenario(sc scenario, script []int, deterministic bool) *outcome {
 	// --- run
 	out.results = make([][]bool, len(sc.threads))
 	var wg sync.WaitGroup
+	var pmu sync.Mutex
 	for i := range sc.threads {
 		wg.Add(1)
 		go func(i int) {
 			defer wg.Done()
+			defer func() {
+				// a Go panic inside the key store must not take the harness down: it is an outcome
+				if p := recover(); p != nil {
+					pmu.Lock()
+					out.panics = append(out.panics, fmt.Sprintf("thread %d: %v", i, p))
+					pmu.Unlock()
+					if ctl != nil {
+						ctl.finished(i)
+					}
+				}
+			}()
 			t := sc.threads[i]
 			h := hs[i]
 			for _, o := range t.ops {
 				var err error
-				switch o.kind {
-				case 'A':
-					_, err = h.ring.AddKey(symDescription(material(o.data)))
-				case 'C':
-					err = h.ring.SetCurrent(o.seq)
-				case 'S':
-					err = h.ring.SetState(o.seq, api.KeyState(o.st))
-				case 'D':
-					err = h.ring.DestroyKey(o.seq)
-				case 'R':
+				switch {
+				case o.kind == 'O':
+					var ring api.MutableKeyRing
+					ring, err = h.ks.OpenKeyRingRW(paths[t.path])
+					if err == nil {
+						h.ring = ring
+					}
+				case o.kind == 'R':
 					_, err = h.ks.OpenKeyRing(paths[t.path])
+				case h.ring == nil:
+					err = errNotOpen
+				case o.kind == 'A':
+					_, err = h.ring.AddKey(symDescription(material(o.data)))
+				case o.kind == 'C':
+					err = h.ring.SetCurrent(o.seq)
+				case o.kind == 'S':
+					err = h.ring.SetState(o.seq, api.KeyState(o.st))
+				case o.kind == 'D':
+					err = h.ring.DestroyKey(o.seq)
 				}
 				out.results[i] = append(out.results[i], err == nil)
 				if ctl == nil {
@@ -376,15 +418,26 @@ func (w *world) renderCall(rc rec) string {
 }
 
 // judge is the direct oracle on the implementation's observations (independent of the model).
-func judge(r *core.Run, o *outcome) {
+func judge(r checker, o *outcome) {
 	desc := func(what string) string { return what + " in scenario " + o.sc.key() }
 	if o.deadlock {
 		r.Fail("deadlock", desc("no thread could proceed"))
 		return
 	}
+	if len(o.panics) > 0 {
+		r.Fail("thread-panic", desc("the key store panicked: "+strings.Join(o.panics, "; ")))
+		return
+	}
 	// 1. lock discipline and completeness of everything read
 	writer, readers := -1, map[int]bool{}
 	renames := map[int]int{}
+	creations := map[int]int{} // the thread's last Get said ErrNotExist and it renames: openKeyRing creates the ring
+	sawMissing := map[int]bool{}
+	lastPut := map[int]absRing{}
+	stored := map[int]int{} // keys in the stored ring, per path
+	for p, r := range o.initial {
+		stored[p] = len(r.keys)
+	}
 	for _, rc := range o.trace {
 		switch rc.kind {
 		case "L":
@@ -392,6 +445,7 @@ func judge(r *core.Run, o *outcome) {
 			writer = rc.tid
 		case "U":
 			writer = -1
+			sawMissing[rc.tid] = false
 		case "RL":
 			r.Check(writer < 0, "rlock-during-write", desc(fmt.Sprintf("thread %d got the shared lock during a write", rc.tid)))
 			readers[rc.tid] = true
@@ -403,10 +457,28 @@ func judge(r *core.Run, o *outcome) {
 				_, ok := o.w.decode(o.w.paths[o.w.pathID(rc.path)], rc.data)
 				r.Check(ok, "partial-read", desc(fmt.Sprintf("thread %d read a key ring that does not verify (partial or foreign write)", rc.tid)))
 			}
+			sawMissing[rc.tid] = !rc.ok
 		case "P", "N":
 			r.Check(writer == rc.tid, "write-unlocked", desc("Put/Rename without the exclusive lock"))
+			p := o.w.pathID(rc.path)
+			if rc.kind == "P" && p >= 0 {
+				if ring, ok := o.w.decode(o.w.paths[p], rc.data); ok {
+					lastPut[rc.tid] = ring
+				}
+			}
 			if rc.kind == "N" && rc.ok {
 				renames[rc.tid]++
+				if sawMissing[rc.tid] {
+					creations[rc.tid]++
+					sawMissing[rc.tid] = false
+				}
+				// no operation of these scenarios removes keys: a rename never replaces the stored ring by a shorter one
+				// (a create that overwrites a ring another handle has created and filled in the meantime does)
+				if p >= 0 {
+					n := len(lastPut[rc.tid].keys)
+					r.Check(n >= stored[p], "stored-ring-shrunk", desc(fmt.Sprintf("thread %d renamed a ring with %d keys (%s) over the stored ring %d, which had %d keys", rc.tid, n, lastPut[rc.tid], p, stored[p])))
+					stored[p] = n
+				}
 			}
 		}
 	}
@@ -414,14 +486,24 @@ func judge(r *core.Run, o *outcome) {
 	for i, t := range o.sc.threads {
 		okWrites := 0
 		for k, op := range t.ops {
-			if op.kind != 'R' && k < len(o.results[i]) && o.results[i][k] {
+			if op.kind != 'R' && op.kind != 'O' && k < len(o.results[i]) && o.results[i][k] {
 				okWrites++
 			}
 		}
-		r.Check(renames[i] == okWrites, "commit-count", desc(fmt.Sprintf("thread %d: %d successful writes but %d renames", i, okWrites, renames[i])))
+		// OpenKeyRingRW renames only when it creates the ring (its Get under the exclusive lock said ErrNotExist)
+		r.Check(renames[i] == okWrites+creations[i], "commit-count", desc(fmt.Sprintf("thread %d: %d successful writes and %d ring creations but %d renames", i, okWrites, creations[i], renames[i])))
 	}
 	// 3. final state vs the successful operations
 	for p, fin := range o.finals {
+		opened := false
+		for i, t := range o.sc.threads {
+			for k, op := range t.ops {
+				if t.path == p && op.kind == 'O' && k < len(o.results[i]) && o.results[i][k] {
+					opened = true
+				}
+			}
+		}
+		r.Check(!fin.missing || (o.initial[p].missing && !opened), "ring-missing", desc(fmt.Sprintf("ring %d does not exist at the end although it existed or a successful OpenKeyRingRW created it", p)))
 		count := map[int]int{}
 		last := 0
 		for idx, k := range fin.keys {
